@@ -8,6 +8,7 @@
   value-semantics model cannot exhibit an aliasing bug).
 -/
 import PvModel.Proofs.Stream
+import PvModel.Proofs.FDProgram
 namespace Pv
 open Strm Goal
 
@@ -49,6 +50,25 @@ theorem C10_frame (top : Goal St K → St → Strm St K) (l1 l2 : Lz St K) :
 /-- `mplus` never modifies the states of either argument: every state in the result is a state of an argument -/
 theorem C10_mplus_states (top : Goal St K → St → Strm St K) (s : Strm St K) (l : Lz St K) (b : St) :
     MemS top b (Strm.mplus s l) ↔ MemS top b s ∨ MemL top b l := mem_mplus_iff
+
+/-- NO LEAK BETWEEN CLAUSES, for constraint programs (tree, CLP(FD), CLP(Z) atoms; nested conjunction /
+    conde / fresh): every (unpoisoned) state the engine delivers for `conde { p, q }` — posted after any
+    common prefix `pre` — describes exactly the solutions of `pre` followed by a path of `p`, or of `pre`
+    followed by a path of `q`: a constraint posted, a domain narrowed or a variable bound in one clause never
+    shows up in a state of the other.  (Value semantics of the model; that the `Rc` clone-on-write code
+    refines it is what the combined-vs-separate runs check.) -/
+theorem C10_no_leak {ord : Order} (ho : OrderOK ord) (dfs : Call → State → State × G) (pf M nv : Nat)
+    (pre p q : FProg) (hok : (FProg.conj pre (FProg.alt p q)).OK) :
+    ∃ k ys, drainF (solveAt dfs pf (M + 1)) k
+        (solveAt dfs pf (M + 1) ((FProg.conj pre (FProg.alt p q)).goal ord) (State.empty nv)) = some ys ∧
+      ∀ s ∈ ys, s.panic = none →
+        ∃ x ∈ pre.paths, ∃ y ∈ p.paths ++ q.paths, ∀ γ, Sem NoI γ s ↔ ∀ a ∈ x ++ y, a.Sat γ := by
+  obtain ⟨k, ys, h1, _, h3, _⟩ := fd_program ho dfs pf M nv _ hok
+  refine ⟨k, ys, h1, fun s hs hp => ?_⟩
+  obtain ⟨path, hpth, hsem⟩ := h3 s hs hp
+  simp only [FProg.paths, List.mem_flatMap, List.mem_map] at hpth
+  obtain ⟨x, hx, y, hy, rfl⟩ := hpth
+  exact ⟨x, hx, y, hy, hsem⟩
 
 section Examples
 private def defs0 : Unit → Nat → Nat × Goal Nat Unit := fun _ a => (a, .fail)
